@@ -156,7 +156,9 @@ let parse_case (line : string) =
   let (benches, groups) =
     if List.exists (fun t -> String.length t > 1 && t.[0] = 'P' && t.[1] = ',') toks then begin
       let (crate, its) = parse_program toks in
-      match expand (st crate) its with
+      let edition2015 = List.exists (fun t -> String.length t > 2 && String.sub t 0 2 = "P," &&
+                                               (match String.split_on_char ',' t with [_; _; "2015"] -> true | _ -> false)) toks in
+      match expand (if edition2015 then spell_2015 else (fun r -> r)) (st crate) its with
       | Ok (b, g) -> (b, g)
       | Panic p -> failwith ("expand: compile-time panic " ^ string_of_panic p)
     end else (List.rev !benches, List.rev !groups) in
